@@ -2,6 +2,7 @@
 # harness/integrate.sh <Cxx> : merge the builder branch wp-Cxx (framework + SF fix commits) into the main branches
 X=$1
 cd "$(dirname "$0")/.."
+git checkout -- evidence 2>/dev/null
 git merge --no-edit wp-$X 2>&1 | tail -1
 if git status --short | grep -q "^UU"; then
   if git status --short | grep -q "^UU known_findings.json"; then python3 harness/merge_known.py $X && git add known_findings.json; fi
